@@ -1,8 +1,9 @@
 import GraafVerif.Driver.Common
-import GraafVerif.Model.Fw
+import GraafVerif.Model.FwFast
 /-!
-Driver handler for C08:  `fw_dist [wi n warcs] => panic | rows flat bfm dij`
-(see `harness/src/ops/c08.rs`).
+Driver handlers for C08:  `fw_dist [wi n warcs] => panic | rows flat bfm dij`,
+`fw_dist2 [wi n warcs] => panic | rows1 flat1 rows2 flat2` (two calls of `distances()` on one
+object; see `harness/src/ops/c08.rs`).
 
 * correspondence: `rows` (pair index) and `flat` (`dist.dist`) against `Fw.run`;
 * property oracle (on the IMPLEMENTATION's `rows`): for every source `s`, the naive relaxation
@@ -37,10 +38,45 @@ def hypsB (g : WGraph) : Bool :=
     let r := g.out u
     r.all (fun vw => vw.1 < g.n) && (r.map (·.1)).Pairwise (· ≠ ·))
 
+/-- The matrix as the two observations of the protocol: rows through the pair index, flat vector.
+The driver runs the `Array` twin of the model (`Proof/FwFast.lean`: same lists). -/
+def matOut (n : Nat) (m : MatA) : List V :=
+  [.l ((List.range n).map (fun u => .l ((List.range n).map (fun v => entV (getA n m u v))))),
+   .l (m.toList.map entV)]
+
 def modelOut (g : WGraph) : List V :=
-  match run g with
-  | .panic => [.a "panic"]
-  | .ok m => [.l ((List.range g.n).map (fun u => rowV (row g.n m u))), rowV m]
+  if g.n = 0 then [.a "panic"] else matOut g.n (distancesA g)
+
+/-- Two calls of `distances()` on one object. -/
+def modelOut2 (g : WGraph) : List V :=
+  if g.n = 0 then [.a "panic"] else matOut g.n (distancesA g) ++ matOut g.n (distances2A g)
+
+/-- Naive oracle for orders above 40 (where the shared `wdistB` on lists is too slow): plain
+Bellman-Ford on an `Array`, all arcs per round, at most `n` rounds, early exit when a round
+changes nothing; flag = the `n`-th round still improved something (negative circuit reachable). -/
+def bfA (g : WGraph) (arcs : List (Nat × Nat × Int)) (s : Nat) : List (Option Int) × Bool :=
+  let round (d : Array (Option Int)) : Array (Option Int) × Bool :=
+    arcs.foldl (fun (acc : Array (Option Int) × Bool) a =>
+      match (acc.1[a.1]?).getD none with
+      | none => acc
+      | some du =>
+        match (acc.1[a.2.1]?).getD none with
+        | none => (acc.1.setIfInBounds a.2.1 (some (du + a.2.2)), true)
+        | some dv => if du + a.2.2 < dv then (acc.1.setIfInBounds a.2.1 (some (du + a.2.2)), true) else acc)
+      (d, false)
+  let rec go (fuel : Nat) (d : Array (Option Int)) : Array (Option Int) × Bool :=
+    match fuel with
+    | 0 => (d, (round d).2)
+    | fuel+1 => let r := round d; if r.2 then go fuel r.1 else (d, false)
+  let r := go g.n ((Array.replicate g.n none).setIfInBounds s (some 0))
+  (r.1.toList, r.2)
+
+/-- Single-source oracle: the shared (proved) `wdistB` up to order 40, `bfA` above. -/
+def ssOracle (g : WGraph) : Nat → List (Option Int) × Bool :=
+  if g.n ≤ 40 then fun s => wdistB g [s]
+  else
+    let arcs := arcsWeighted g
+    fun s => bfA g arcs s
 
 /-- First difference between two rows, for the report. -/
 def firstDiff (s : Nat) (a b : List (Option Int)) : String :=
@@ -48,15 +84,18 @@ def firstDiff (s : Nat) (a b : List (Option Int)) : String :=
   | some v => s!"({s},{v}) impl={entV ((a[v]?).getD none)} want={entV ((b[v]?).getD none)}"
   | none => s!"row {s}"
 
-def oracle (g : WGraph) (rows : List (List (Option Int))) (bfm : List (Option (List (Option Int))))
-    (dij : Option (List (List (Option Int)))) : Option String :=
+def oracle (g : WGraph) (wants : List (List (Option Int))) (rows : List (List (Option Int)))
+    (bfm : Option (List (Option (List (Option Int))))) (dij : Option (List (List (Option Int)))) : Option String :=
   if rows.length != g.n then some s!"matrix has {rows.length} rows for order {g.n}" else
   let perRow := (List.range g.n).filterMap (fun s =>
     let r := (rows[s]?).getD []
-    let want := (wdistB g [s]).1
+    let want := (wants[s]?).getD []
     if r != want then some ("not-min-walk-weight " ++ firstDiff s r want)
     else if (r[s]?).getD none != some 0 then some s!"diagonal ({s},{s}) not 0"
-    else match (bfm[s]?).getD none with
+    else match bfm with
+    | none => none
+    | some bfm =>
+    match (bfm[s]?).getD none with
       | none => some s!"real BellmanFordMoore from {s} reports a negative circuit"
       | some b =>
         if b != r then some ("row-differs-from-real-BFM " ++ firstDiff s r b)
@@ -67,7 +106,9 @@ def oracle (g : WGraph) (rows : List (List (Option Int))) (bfm : List (Option (L
             else none)
   perRow.head?
 
-def hDist : Handler := fun _ args observed =>
+/-- Common part of both ops.  `twice = false`: `fw_dist` (observed `rows flat bfm dij`);
+`twice = true`: `fw_dist2` (observed `rows1 flat1 rows2 flat2`). -/
+def handle (twice : Bool) : Handler := fun _ args observed =>
   match args with
   | [dv] => do
     let d ← GDesc.parse dv
@@ -80,34 +121,49 @@ def hDist : Handler := fun _ args observed =>
       if !hypsB g then
         pure (bad "model digraph violates WF/Functional (driver bug)")
       else
-      let model := modelOut g
+      let model := if twice then modelOut2 g else modelOut g
       let negArcs := d.warcs.any (fun a => a.2.2 < 0)
-      let baseTags := [sizeTag d.order, if negArcs then "neg-arcs" else "nonneg"]
-      let negCycle := (List.range g.n).any (fun s => (wdistB g [s]).2)
-      match observed with
-      | [.a "panic"] =>
+      let bigW := d.warcs.any (fun a => a.2.2 > 1000000000 || a.2.2 < -1000000000)
+      let baseTags := [sizeTag d.order, if negArcs then "neg-arcs" else "nonneg",
+        if bigW then "weights-2^40+" else "weights-small", if twice then "two-calls" else "one-call"]
+      let orc := ssOracle g
+      let res := (List.range g.n).map orc
+      let negCycle := res.any (·.2)
+      let wants := res.map (·.1)
+      let nt := d.order ≥ 2 && !d.warcs.isEmpty
+      let finish (obs : List V) (rows : List (List (Option Int))) (pf : Option String) (extra : List String) : Verdict :=
+        if negCycle then classify obs model none (nt := false) (baseTags ++ ["neg-cycle-skipped"])
+        else
+          let hasInf := rows.any (fun r => r.any Option.isNone)
+          let sym := (List.range g.n).all (fun u => (List.range g.n).all (fun v =>
+            ((rows[u]?).getD [])[v]? == ((rows[v]?).getD [])[u]?))
+          classify obs model pf nt (baseTags ++ [if hasInf then "has-inf" else "all-finite",
+            if sym then "sym-matrix" else "asym-matrix"] ++ extra)
+      match twice, observed with
+      | _, [.a "panic"] =>
         pure (classify observed model (some "panicked on a valid digraph") true (baseTags ++ ["res-panic"]))
-      | [rowsV, flatV, bfmV, dijV] =>
+      | false, [rowsV, flatV, bfmV, dijV] =>
         let rows ← V.listOf? (V.listOf? ent?) rowsV
         let _flat ← V.listOf? ent? flatV
         let bfm ← V.listOf? (V.opt? (V.listOf? ent?)) bfmV
         let dij ← (match dijV with
           | .a "na" => some none
           | v => (V.listOf? (V.listOf? ent?) v).map some)
-        let obs2 := [rowsV, flatV]
-        if negCycle then
-          pure (classify obs2 model none (nt := false) (baseTags ++ ["neg-cycle-skipped"]))
-        else
-          let hasInf := rows.any (fun r => r.any Option.isNone)
-          let sym := (List.range g.n).all (fun u => (List.range g.n).all (fun v =>
-            ((rows[u]?).getD [])[v]? == ((rows[v]?).getD [])[u]?))
-          let tags := baseTags ++ [if hasInf then "has-inf" else "all-finite",
-            if sym then "sym-matrix" else "asym-matrix",
-            if dij.isSome then "dijkstra-compared" else "dijkstra-na"]
-          pure (classify obs2 model (oracle g rows bfm dij) (nt := d.order ≥ 2 && !d.warcs.isEmpty) tags)
-      | _ => none
+        pure (finish [rowsV, flatV] rows (oracle g wants rows (some bfm) dij)
+          [if dij.isSome then "dijkstra-compared" else "dijkstra-na"])
+      | true, [rows1V, flat1V, rows2V, flat2V] =>
+        let rows1 ← V.listOf? (V.listOf? ent?) rows1V
+        let rows2 ← V.listOf? (V.listOf? ent?) rows2V
+        let _f1 ← V.listOf? ent? flat1V
+        let _f2 ← V.listOf? ent? flat2V
+        -- the property holds of EVERY call of `distances()`
+        let pf := match oracle g wants rows1 none none with
+          | some why => some ("first-call " ++ why)
+          | none => (oracle g wants rows2 none none).map ("second-call " ++ ·)
+        pure (finish observed rows1 pf [])
+      | _, _ => none
   | _ => none
 
-def handlers : List (String × Handler) := [("fw_dist", hDist)]
+def handlers : List (String × Handler) := [("fw_dist", handle false), ("fw_dist2", handle true)]
 
 end GraafVerif.Driver.H08
